@@ -119,3 +119,51 @@ case("c03-aggpks-empty-ok", "C03", CS, "        if len(PKs) < 1:\n            ra
      more=[(CS, "            # Preconditions\n            if len(PKs) < 1:\n                raise ValidationError(\"Insufficient number of PKs. (n < 1)\")\n\n            # Procedure\n            aggregate_pubkey", "            # Procedure\n            aggregate_pubkey", 1)])
 case("c03-twin-add-order", "C03", CS, "            aggregate = add(aggregate, signature_point)", "            aggregate = add(signature_point, aggregate)", expect="silent")
 case("c03-twin-distinct-form", "C03", CS, "        if len(messages) != len(set(messages)):", "        if len(set(messages)) < len(messages):", expect="silent")
+
+HASH = "py_ecc/bls/hash.py"
+H2C = "py_ecc/bls/hash_to_curve.py"
+# ---------------------------------------------------------------- C09
+case("c09-tag-typo", "C09", CS, 'DST = b"BLS_SIG_BLS12381G2_XMD:SHA-256_SSWU_RO_NUL_"', 'DST = b"BLS_SIG_BLS12381G2_XMD:SHA-256_SSWU_RO_NUL"', rule="C09.R1")
+case("c09-pop-tag-changed", "C09", CS, 'POP_TAG = b"BLS_POP_BLS12381G2', 'POP_TAG = b"BLS_PoP_BLS12381G2', rule="C09.R1")
+case("c09-symmetric-aug-suffix", "C09", CS, "        return cls._CoreVerify(PK, PK + message, signature, cls.DST)", "        return cls._CoreVerify(PK, message + PK, signature, cls.DST)",
+     more=[(CS, "        return cls._CoreSign(SK, PK + message, cls.DST)", "        return cls._CoreSign(SK, message + PK, cls.DST)", 1)], rule="C09.R2")
+case("c09-pubkey-width-49", "C09", G2P, "    return BLSPubkey(i2osp(z, 48))", "    return BLSPubkey(i2osp(z, 49))")
+case("c09-sig-words-swapped", "C09", G2P, "    return BLSSignature(i2osp(z1, 48) + i2osp(z2, 48))", "    return BLSSignature(i2osp(z2, 48) + i2osp(z1, 48))",
+     more=[(G2P, "    p = G2Compressed((os2ip(signature[:48]), os2ip(signature[48:])))", "    p = G2Compressed((os2ip(signature[48:]), os2ip(signature[:48])))", 1)], rule="C09.R2")
+case("c09-hash-sha512", "C09", CS, "    xmd_hash_function = sha256", "    xmd_hash_function = sha512", more=[(CS, "from hashlib import (\n    sha256,\n)", "from hashlib import (\n    sha256,\n    sha512,\n)", 1)])
+case("c09-popprove-signs-with-dst", "C09", CS, "        return cls._CoreSign(SK, pubkey, cls.POP_TAG)", "        return cls._CoreSign(SK, pubkey, cls.DST)",
+     more=[(CS, "        return cls._CoreVerify(PK, PK, proof, cls.POP_TAG)", "        return cls._CoreVerify(PK, PK, proof, cls.DST)", 1)])
+# ---------------------------------------------------------------- C15
+case("c15-zpad-digest-size", "C15", HASH, '    Z_pad = b"\\x00" * r_in_bytes', '    Z_pad = b"\\x00" * (2 * b_in_bytes)', rule="C15.R2")
+case("c15-zpad-literal-64", "C15", HASH, '    Z_pad = b"\\x00" * r_in_bytes', '    Z_pad = b"\\x00" * 64', rule="C15.R2")
+case("c15-ell-from-block-size", "C15", HASH, "    ell = math.ceil(len_in_bytes / b_in_bytes)", "    ell = math.ceil(len_in_bytes / (r_in_bytes // 2))")
+case("c15-dst-guard-ge-256", "C15", HASH, "    if len(DST) > 255:", "    if len(DST) > 256:", rule="C15.R1")
+case("c15-dst-guard-removed", "C15", HASH, '    if len(DST) > 255:\n        raise ValueError("DST must be <= 255 bytes")\n', "")
+case("c15-ell-guard-256", "C15", HASH, "    if ell > 255:", "    if ell > 256:")
+case("c15-xor-prev-wrong-index", "C15", HASH, "xor(b_0, b[i - 2])", "xor(b_0, b[i - 3])", rule="C15.R2")
+case("c15-no-xor", "C15", HASH, "hash_function(xor(b_0, b[i - 2]) + i2osp(i, 1) + DST_prime)", "hash_function(b[i - 2] + i2osp(i, 1) + DST_prime)")
+case("c15-b1-missing-dst", "C15", HASH, 'b = [hash_function(b_0 + b"\\x01" + DST_prime).digest()]', 'b = [hash_function(b_0 + b"\\x01" + DST).digest()]')
+case("c15-lib-after-zero", "C15", HASH, 'Z_pad + msg + l_i_b_str + b"\\x00" + DST_prime', 'Z_pad + msg + b"\\x00" + l_i_b_str + DST_prime')
+case("c15-xor-or", "C15", HASH, "    return bytes(_a ^ _b for _a, _b in zip(a, b))", "    return bytes(_a | _b for _a, _b in zip(a, b))", rule="C15.R1")
+case("c15-h2f-offset-swapped", "C15", H2C, "            elem_offset = HASH_TO_FIELD_L * (j + i * M)", "            elem_offset = HASH_TO_FIELD_L * (i + j * count)", rule="C15.R3")
+case("c15-h2f-L-48", "C15", "py_ecc/bls/constants.py", "HASH_TO_FIELD_L = 64", "HASH_TO_FIELD_L = 48")
+case("c15-h2f-no-reduce", "C15", H2C, "        u.append(FQ(os2ip(tv) % field_modulus))", "        u.append(FQ(os2ip(tv[16:])))")
+case("c15-twin-reassoc", "C15", HASH, 'Z_pad + msg + l_i_b_str + b"\\x00" + DST_prime', 'Z_pad + (msg + (l_i_b_str + b"\\x00")) + DST_prime', expect="silent")
+case("c15-twin-i2osp-zero", "C15", HASH, 'l_i_b_str + b"\\x00" + DST_prime', 'l_i_b_str + i2osp(0, 1) + DST_prime', expect="silent")
+# ---------------------------------------------------------------- C16
+case("c16-extract-args-swapped", "C16", HASH, "    return hmac.new(salt, ikm, hashlib.sha256).digest()", "    return hmac.new(ikm, salt, hashlib.sha256).digest()", rule="C16.R1")
+case("c16-expand-counter-from-zero", "C16", HASH, "text = previous + info + bytes([i + 1])", "text = previous + info + bytes([i])")
+case("c16-expand-no-chaining", "C16", HASH, "text = previous + info + bytes([i + 1])", "text = info + bytes([i + 1])")
+case("c16-expand-info-first", "C16", HASH, "text = previous + info + bytes([i + 1])", "text = info + previous + bytes([i + 1])")
+case("c16-expand-block-64", "C16", HASH, "    n = math.ceil(length / 32)", "    n = math.ceil(length / 64)")
+case("c16-keygen-salt-not-rehashed", "C16", CS, "            salt = cls.xmd_hash_function(salt).digest()\n", "", rule="C16.R2")
+case("c16-keygen-no-zero-pad", "C16", CS, 'prk = hkdf_extract(salt, IKM + b"\\x00")', "prk = hkdf_extract(salt, IKM)", rule="C16.R2")
+case("c16-keygen-pad-prepended", "C16", CS, 'prk = hkdf_extract(salt, IKM + b"\\x00")', 'prk = hkdf_extract(salt, b"\\x00" + IKM)')
+case("c16-keygen-len-width-1", "C16", CS, "okm = hkdf_expand(prk, key_info + i2osp(l, 2), l)", "okm = hkdf_expand(prk, key_info + i2osp(l, 1), l)")
+case("c16-keygen-32-bytes", "C16", CS, "l = ceil((1.5 * ceil(log2(curve_order))) / 8)", "l = ceil(ceil(log2(curve_order)) / 8)")
+case("c16-keygen-info-after-len", "C16", CS, "key_info + i2osp(l, 2)", "i2osp(l, 2) + key_info")
+case("c16-keygen-salt-literal", "C16", CS, 'salt = b"BLS-SIG-KEYGEN-SALT-"', 'salt = b"BLS-SIG-KEYGEN-SALT"')
+case("c16-keygen-salt-hashed-after", "C16", CS, "            salt = cls.xmd_hash_function(salt).digest()\n            prk = hkdf_extract(salt, IKM + b\"\\x00\")",
+     "            prk = hkdf_extract(salt, IKM + b\"\\x00\")\n            salt = cls.xmd_hash_function(salt).digest()")
+case("c16-twin-loop-var", "C16", HASH, "    for i in range(0, n):\n        # Concatenate (T(i) || info || i)\n        text = previous + info + bytes([i + 1])",
+     "    for j in range(1, n + 1):\n        text = previous + info + bytes([j])", expect="silent")
